@@ -68,53 +68,18 @@ def run(tier, seed, replay=None):
     proof_stage(rep, "C03")
     if not build_stage(rep):
         return rep.finish()
-    os.makedirs(WORK, exist_ok=True)
-    if replay:
-        import json
-        r = json.load(open(replay))
-        cases = [("r1", r["case"], r.get("tags", {}))]
-    else:
-        cases = make_cases(tier, rng)
-    path = os.path.join(WORK, "C03.%s.cases" % tier)
-    with open(path, "w") as f:
-        for _, text, _ in cases:
-            f.write(text + "\n")
-    try:
-        impl = run_impl(path)
-        model, spec = run_model(path)
-    except CheckFailure as e:
-        rep.violations.append(("correspondence cannot be established: " + e.what,
-                               {"obligation": e.what, "detail": e.detail, "failing_input_found": False}))
-        return rep.finish()
-    distinct = set()
+    cases = load_replay_case(replay) if replay else make_cases(tier, rng)
+    correspond(rep, "C03", cases, "C03_cold_pipeline / C03_hot_pipeline")
     hist = {}
-    full_dis = 0
-    for cid, text, tags in cases:
-        i, m, s = impl.get(cid), model.get(cid), spec.get(cid)
-        body = text.split(" ", 2)[2]
-        if i:
-            distinct.add(body)
-        hist[tags["op"].split("+")[0]] = hist.get(tags["op"].split("+")[0], 0) + 1
-        if i != s:
-            # the oracle (documented list semantics) rejects the implementation's trace: failing input found
-            rep.fail("implementation differs from the documented sequence",
-                     {"case": text, "impl": i, "spec": s, "model": m, "tags": tags,
-                      "theorem": "C03_cold_pipeline / C03_hot_pipeline", "failing_input_found": True}, tags)
-        elif i != m:
-            full_dis += 1
-            rep.fail("model differs from implementation (and from its own specification)",
-                     {"case": text, "impl": i, "spec": s, "model": m, "tags": tags, "failing_input_found": False}, tags)
+    for _, _, tags in cases:
+        k = tags["op"].split("+")[0]
+        hist[k] = hist.get(k, 0) + 1
     c = rep.coverage
-    c["evaluations"] = len(cases)
-    c["distinct_nontrivial"] = len(distinct)
-    c["traces_validated_against_impl"] = len(cases)
-    c["full_trace_disagreements"] = full_dis
     c["exhaustive"] = False
     c["rule"] = ("every operator instance (parameters 0..5, closure families) x every script of <= %d items over {0,1,2} x "
                  "{no terminal, complete, error}, cold (create) and hot (Subject); every basic source alone and under each operator; "
                  "random chains of depth 2-4 with post-terminal calls; a case is non-trivial when the implementation's trace is "
                  "non-empty; distinct = distinct case text" % (4 if tier == "quick" else 5))
-    c["samples"] = [cases[k][1] for k in (0, len(cases) // 2, len(cases) - 1)]
     c["generator_distribution"] = {"first_operator_histogram": hist}
     rep.assumptions = ["float arithmetic of average is modelled (exact rational scaled by 2520), not verified",
                        "closures are drawn from a fixed first-order family in cases; theorems quantify over all functions"]
